@@ -99,6 +99,11 @@ func FullMenu(n *Node, slot uint64) []Choice {
 	if f >= refspec.Bellatrix {
 		add(&Plan{Name: "payload:txs", Txs: 2, ExtraData: 32})
 	}
+	if f == refspec.Bellatrix && (n.Ref.F < refspec.Bellatrix || !n.Ref.IsMergeTransitionComplete(c)) {
+		add(&Plan{Name: "payload:none(pre-merge block)", Payload: "none"})
+		add(&Plan{Name: "payload:merge-transition-with-unknown-parent-hash", Payload: "merge-arbitrary-parent", Txs: 1})
+		add(&Plan{Name: "payload:merge-transition-with-zero-block-hash", Payload: "merge-zero-block-hash", Txs: 1})
+	}
 	if f >= refspec.Capella {
 		var bls []uint64
 		for i := range n.Ref.Validators {
@@ -171,6 +176,9 @@ func Scenarios(tier string) []*Scenario {
 			}
 			return out
 		}}
+	// the same deposits on a chain that stays in phase0 (deposit processing is the last operation kind of a phase0
+	// block that has no exits)
+	depP0 := &Scenario{Name: "deposits/phase0-only", Preset: T4([5]uint64{0, Far, Far, Far, Far}), Slots: 16, NKeys: 24, Default: dep.Default, Menu: SmallMenu}
 	phase0only := &Scenario{Name: "healthy/phase0-only", Preset: T4([5]uint64{0, Far, Far, Far, Far}), Slots: 20, Default: defaultBlock, Menu: FullMenu, NKeys: 24}
 	altairLong := &Scenario{Name: "healthy/altair-at-1", Preset: T4([5]uint64{0, 1, Far, Far, Far}), Slots: 24, Default: defaultBlock, Menu: FullMenu, NKeys: 24}
 	sameEpoch := &Scenario{Name: "healthy/two-upgrades-in-epoch-2", Preset: T4([5]uint64{0, 1, 2, 2, 3}), Slots: 20, Default: defaultBlock, Menu: SmallMenu, NKeys: 24}
@@ -200,10 +208,13 @@ func Scenarios(tier string) []*Scenario {
 	wd := &Scenario{Name: "withdrawals/all-forks", Preset: wdP, Slots: 32, Menu: SmallMenu, NKeys: 24, Default: defaultBlock}
 	// 32 sync committee seats for 16 validators: every validator sits twice in each aggregate
 	sync32 := &Scenario{Name: "healthy/sync-committee-of-32", Preset: TSync32(AllForks), Slots: 24, Default: defaultBlock, Menu: SmallMenu, NKeys: 24}
+	oddP := T4(AllForks)
+	oddP.Name, oddP.OddVectors = "T4-odd-vectors", true
+	oddVec := &Scenario{Name: "healthy/odd-vector-lengths", Preset: oddP, Slots: 44, Default: defaultBlock, Menu: SmallMenu, NKeys: 24}
 	if tier == "thorough" {
-		return []*Scenario{healthy, leak, dep, phase0only, altairLong, sameEpoch, eject, mass, wd, sync32}
+		return []*Scenario{healthy, leak, dep, phase0only, altairLong, sameEpoch, eject, mass, wd, sync32, depP0, oddVec}
 	}
-	return []*Scenario{healthy, leak, dep, phase0only, mass, wd}
+	return []*Scenario{healthy, leak, dep, phase0only, mass, wd, depP0}
 }
 
 // SlotMenu: C02 — deviations that shape slot/epoch processing: gaps and registry-changing blocks.
